@@ -221,14 +221,25 @@ def k_view_history(ctx, seed):
         f["service"], f["mc"] = 17, 0
     w = build(route, f["apid"], f["count"], f["service"], f["subservice"], f["mc"], f["dest"], f["tref"], f["ver"], ts, f["data"])
     t = w.pus_tm if route == "srv17" else w
+    wrapper = w if route == "srv17" else None
     if r.random() < 0.4:
-        t = tmm.PusTm.unpack(bytes(t.pack()), len(ts))
+        if wrapper is not None:
+            wrapper = Service17Tm.unpack(bytes(wrapper.pack()), len(ts))
+            t = wrapper.pus_tm
+        else:
+            t = tmm.PusTm.unpack(bytes(t.pack()), len(ts))
     ops = []
     for step in range(r.randrange(2, 9)):
-        op = r.choice(("pack", "calc_crc", "view", "apid", "tm_data", "pack_cached"))
+        op = r.choice(("pack", "calc_crc", "view", "apid", "tm_data", "pack_cached", "seq_count") + (("wrapper_pack", "wrapper_pack") if wrapper is not None else ()))
         ops.append(op)
         if op == "pack":
             got = bytes(t.pack())
+        elif op == "wrapper_pack":
+            got = bytes(wrapper.pack())
+        elif op == "seq_count":
+            f["count"] = r.getrandbits(14)
+            t.sp_header.seq_count = f["count"]
+            continue
         elif op == "pack_cached":
             t.pack()
             got = bytes(t.pack(recalc_crc=False))
@@ -247,7 +258,10 @@ def k_view_history(ctx, seed):
             continue
         want = R.tm(f["apid"], f["count"], f["service"], f["subservice"], f["mc"], f["dest"], f["tref"], ts, f["data"], version=f["ver"])
         what = "space_packet_view" if op == "view" else "pack"
-        changed = any(o in ops for o in ("apid", "tm_data"))
+        changed = any(o in ops for o in ("apid", "tm_data", "seq_count"))
+        if op == "wrapper_pack":
+            what = "service17_wrapper_pack"
+        ctx.table("view_history_ops", op)
         if not ctx.check("tm.view_history", got == want, f"{what}_differs_from_current_fields", _octet_diff(got, want, len(ts)) + ("/after_field_change" if changed else ""),
                          dict(case, ops=ops), observed=got, expected=want):
             return
@@ -332,6 +346,14 @@ def run(ctx):
                 k_tm(ctx, route, r.getrandbits(11), r.getrandbits(14), r.getrandbits(8), r.getrandbits(8), r.getrandbits(16),
                      r.getrandbits(16), r.getrandbits(4), r.getrandbits(3), ts_of(r.choice(TS_LENS)), rand_bytes(r, n),
                      model_fed=bool(j & 1))
+    # block-boundary sizes: CRC-covered octets (13 + ts + n) and total octets (15 + ts + n) around multiples of 256 ... 32768
+    from spverif.core.util import block_boundary_sizes
+    for tsl in (0, 7):
+        for j, n in enumerate(block_boundary_sizes((13 + tsl, 15 + tsl), 65535 - 9 - tsl, ctx.quick)):
+            if ctx.mine(j):
+                ctx.table("block_boundary_data_len", n)
+                k_tm(ctx, ROUTES[j % 3], r.getrandbits(11), r.getrandbits(14), r.getrandbits(8), r.getrandbits(8), r.getrandbits(16),
+                     r.getrandbits(16), r.getrandbits(4), r.getrandbits(3), ts_of(tsl), rand_bytes(r, n), model_fed=bool(j & 1))
     if ctx.shard[0] == 0:
         for ts_len in (0, 7, 32):
             n = 65536 - 7 - ts_len - 2
